@@ -4,7 +4,7 @@
 From Coq Require Import List Bool Arith Lia Sorting.Sorted.
 From Coq Require Import Strings.Byte Strings.String.
 From Minidyn Require Import Base.Str Base.FMap Base.Outcome Model.Value Model.Key Model.Index Model.Table.
-From Minidyn Require Import Proofs.FMapFacts Proofs.SortFacts Proofs.TableInv Proofs.Search.
+From Minidyn Require Import Proofs.FMapFacts Proofs.SortFacts Proofs.TableInv Proofs.Search Proofs.KeyInv.
 Import ListNotations.
 
 (* ---------- order in the scan direction ---------- *)
@@ -93,8 +93,28 @@ Proof.
     rewrite IH by auto. reflexivity.
 Qed.
 
-Lemma split_after_none fwd ks : ks = [] \/ True -> split_after fwd [] ks = split_after fwd [] ks.
-Proof. reflexivity. Qed.
+Lemma filter_all_id {A} (f : A -> bool) l : (forall x, In x l -> f x = true) -> filter f l = l.
+Proof. induction l as [|a l IH]; intros H; cbn; auto. rewrite (H a) by (now left). f_equal. apply IH. intros x Hx. apply H. now right. Qed.
+
+(* in a sorted list the keys after sk are a suffix: exactly the keys ordered after sk *)
+Lemma split_after_filter fwd sk ks :
+  StronglySorted (aft fwd) ks -> snd (split_after fwd sk ks) = filter (aftb fwd sk) ks.
+Proof.
+  induction ks as [|k r IH]; intros Hs; cbn; auto. inversion Hs as [|? ? Hr Hall]; subst.
+  destruct (aftb fwd sk k) eqn:E; cbn.
+  - f_equal. symmetry. apply filter_all_id. intros x Hx.
+    rewrite Forall_forall in Hall. apply aftb_spec. apply aftb_spec in E. eapply aft_trans; eauto.
+  - destruct (split_after fwd sk r) as [a b] eqn:S; cbn in *. now apply IH.
+Qed.
+
+(* select_items reads only the expressions of the request *)
+Lemma functional_select lm c t q L esk its :
+  select_items lm c t
+    {| q_index := q_index q; q_values := q_values q; q_names := q_names q; q_limit := L; q_esk := esk;
+       q_keycond := q_keycond q; q_filter := q_filter q; q_cond := q_cond q; q_forward := q_forward q; q_scan := q_scan q |}
+    its
+  = select_items lm c t q its.
+Proof. induction its as [|it r IH]; cbn [select_items]; auto. rewrite IH. reflexivity. Qed.
 
 (* ---------- one page ---------- *)
 Section Page.
@@ -109,7 +129,7 @@ Hypothesis Hcond : q_cond q = None.
 Hypothesis HT : TInv t.
 Hypothesis Hev : forall k, In k (t_sorted t) -> match_key lang_match c t q (get_item t k) = Ok (ev k).
 (* the key attributes of a stored item encode to the key it is stored under (C13), and keys are not empty *)
-Hypothesis HK : forall k it, lookup k (t_data t) = Some it -> get_key (t_ks t) (t_defs t) (key_item (t_ks t) it) = inr k /\ k <> [] /\ key_item (t_ks t) it <> [] /\ it <> [].
+Hypothesis HK : forall k it, lookup k (t_data t) = Some it -> get_key (t_ks t) (t_defs t) (key_item (t_ks t) it) = inr k /\ key_item (t_ks t) it <> [] /\ it <> [].
 
 Definition fwd := q_forward q.
 Definition ks := if fwd then t_sorted t else rev (t_sorted t).
@@ -160,9 +180,9 @@ Proof. cbn. destruct (Nat.eqb L _); cbn; [discriminate|]. destruct (page_keys L 
 (* the search loop over keys that are all after the start key (or once started) follows page_keys *)
 Lemma loop_rest L esk0 sk : forall rest s,
   0 < L -> s_count s < L -> Forall (fun k => In k ks) rest ->
-  (s_started s = true \/ (sk <> [] /\ Forall (fun k => aftb fwd sk k = true) rest)) ->
+  (s_started s = true \/ Forall (fun k => aftb fwd sk k = true) rest) ->
   exists s',
-    search_loop lang_match c t (with_page L esk0) sk sk (map (fun k => (k, Some k)) rest) s = Ok s' /\
+    search_loop lang_match c t (with_page L esk0) true sk sk (map (fun k => (k, Some k)) rest) s = Ok s' /\
     let '(p, u, b) := page_keys L (s_count s) rest in
     s_items s' = s_items s ++ map (get_item t) (filter matched p) /\
     s_scanned s' = s_scanned s + List.length p /\
@@ -173,7 +193,7 @@ Proof.
   - exists s. split; auto. cbn. rewrite app_nil_r. repeat split; auto; try lia; intros; try discriminate; auto.
   - inversion Hin as [|? ? Hk Hr]; subst.
     destruct (stored k Hk) as [it [Lk Gk]].
-    assert (search_step lang_match c t (with_page L esk0) sk sk (k, Some k) s =
+    assert (search_step lang_match c t (with_page L esk0) true sk sk (k, Some k) s =
             Ok ({| s_started := true; s_count := if counts k then S (s_count s) else s_count s; s_scanned := S (s_scanned s);
                    s_last := it; s_items := if matched k then s_items s ++ [it] else s_items s;
                    s_fired := s_fired s ++ snd (ev k) |},
@@ -204,8 +224,7 @@ Proof.
         assert (negb (L =? 0) = true) as -> by (destruct L; [lia|reflexivity]). cbn [andb].
         destruct ety; try congruence; reflexivity. }
       destruct (s_started s) eqn:Es; [apply Go|].
-      destruct Hst as [Hst|[Hne Hall]]; [congruence|].
-      destruct sk as [|c0 sk0]; [congruence|].
+      destruct Hst as [Hst|Hall]; [congruence|].
       inversion Hall as [|? ? Ha1 Ha2]; subst. rewrite after_base. unfold fwd in Ha1. cbn [q_forward with_page]. rewrite Ha1. apply Go. }
     cbn [search_loop]. rewrite St. cbn [obind].
     destruct (Nat.eqb L (if counts k then S (s_count s) else s_count s)) eqn:E.
@@ -214,7 +233,7 @@ Proof.
       split; [destruct (matched k); cbn; [now rewrite Gk|now rewrite app_nil_r]|].
       split; [lia|]. split; [intros _; lia|]. split; [intros X; discriminate X|]. now rewrite Gk.
     + apply Nat.eqb_neq in E.
-      match goal with |- context [search_loop _ _ _ _ _ _ _ ?s1] => destruct (IH s1) as [s' [R P]] end; auto.
+      match goal with |- context [search_loop _ _ _ _ _ _ _ _ ?s1] => destruct (IH s1) as [s' [R P]] end; auto.
       * cbn. destruct (counts k); lia.
       * exists s'. split; [exact R|]. cbn [s_count s_items s_scanned s_last] in P.
         destruct (page_keys L (if counts k then S (s_count s) else s_count s) r) as [[p u] b] eqn:PK.
@@ -228,83 +247,86 @@ Qed.
 
 (* the keys that are not after the start key are skipped without being evaluated *)
 Lemma loop_pre L esk0 sk : forall pre tail s,
-  sk <> [] -> s_started s = false -> Forall (fun k => aftb fwd sk k = false) pre ->
-  search_loop lang_match c t (with_page L esk0) sk sk (map (fun k => (k, Some k)) (pre ++ tail)) s =
-  search_loop lang_match c t (with_page L esk0) sk sk (map (fun k => (k, Some k)) tail)
+  s_started s = false -> Forall (fun k => aftb fwd sk k = false) pre ->
+  search_loop lang_match c t (with_page L esk0) true sk sk (map (fun k => (k, Some k)) (pre ++ tail)) s =
+  search_loop lang_match c t (with_page L esk0) true sk sk (map (fun k => (k, Some k)) tail)
     {| s_started := false; s_count := s_count s; s_scanned := s_scanned s + List.length pre; s_last := s_last s;
        s_items := s_items s; s_fired := s_fired s |}.
 Proof.
-  induction pre as [|k pre IH]; intros tail s Hne Hs Hall; cbn [app map List.length].
+  induction pre as [|k pre IH]; intros tail s Hs Hall; cbn [app map List.length].
   - rewrite Nat.add_0_r. destruct s; cbn in *. now subst.
   - inversion Hall as [|? ? Hk Hr]; subst. cbn [search_loop]. unfold search_step. rewrite Hs.
-    destruct sk as [|c0 sk0]; [congruence|].
     rewrite after_base. unfold fwd in Hk. cbn [q_forward with_page]. rewrite Hk. cbn [obind].
     rewrite IH by auto. cbn [s_count s_scanned s_last s_items s_fired]. f_equal. f_equal. lia.
 Qed.
 
-Definition rest_of (sk : str) : list str := match sk with [] => ks | _ => snd (split_after fwd sk ks) end.
+Definition rest_of (hs : bool) (sk : str) : list str := if hs then snd (split_after fwd sk ks) else ks.
 
-Lemma rest_of_in sk : Forall (fun k => In k ks) (rest_of sk).
+Lemma rest_of_in hs sk : Forall (fun k => In k ks) (rest_of hs sk).
 Proof.
-  unfold rest_of. destruct sk as [|c0 sk0]; apply Forall_forall; intros k Hk; auto.
-  rewrite <- (split_after_app fwd (c0 :: sk0) ks). apply in_or_app. now right.
+  unfold rest_of. destruct hs; apply Forall_forall; intros k Hk; auto.
+  rewrite <- (split_after_app fwd sk ks). apply in_or_app. now right.
 Qed.
+
+Definition esk_has (esk : item) : bool := has_start_key (t_ks t) (t_defs t) esk.
+Definition esk_key (esk : item) : str := parse_start_key (t_ks t) (t_defs t) esk.
+Definition esk_rest (esk : item) : list str := rest_of (esk_has esk) (esk_key esk).
 
 (* one page: the items, in order, of the matching keys among the page's keys; a LastEvaluatedKey iff the page is full *)
 Lemma page_result L esk :
   0 < L ->
-  let sk := parse_start_key (t_ks t) (t_defs t) esk in
-  let '(p, u, b) := page_keys L 0 (rest_of sk) in
+  let '(p, u, b) := page_keys L 0 (esk_rest esk) in
   exists f,
     search_data lang_match c t (with_page L esk) =
     Ok (map (get_item t) (filter matched p),
         (if b then key_item (t_ks t) (get_item t (last p [])) else []), f).
 Proof.
-  intros HL sk. unfold search_data. cbn [q_index with_page q_forward q_esk q_limit]. rewrite Hbase. fold sk. fold fwd. fold ks.
-  destruct (page_keys L 0 (rest_of sk)) as [[p u] b] eqn:PK.
-  set (s0 := {| s_started := match sk with [] => true | _ => false end; s_count := 0; s_scanned := 0; s_last := [];
+  intros HL. unfold search_data. cbn [q_index with_page q_forward q_esk q_limit]. rewrite Hbase.
+  fold (esk_key esk). fold (esk_has esk). fold fwd. fold ks.
+  set (sk := esk_key esk). set (hs := esk_has esk).
+  destruct (page_keys L 0 (esk_rest esk)) as [[p u] b] eqn:PK. unfold esk_rest in PK. fold sk hs in PK.
+  set (s0 := {| s_started := negb hs; s_count := 0; s_scanned := 0; s_last := [];
                 s_items := []; s_fired := [] |}).
-  assert (exists s', search_loop lang_match c t (with_page L esk) sk sk (map (fun k => (k, Some k)) ks) s0 = Ok s' /\
+  assert (exists s', search_loop lang_match c t (with_page L esk) true sk sk (map (fun k => (k, Some k)) ks) s0 = Ok s' /\
             s_items s' = map (get_item t) (filter matched p) /\
             s_scanned s' <= List.length ks /\
             (b = true -> s_count s' = L) /\ (b = false -> s_count s' < L) /\
             s_last s' = match p with [] => [] | _ => get_item t (last p []) end) as [s' [R [I1 [I2 [I3 [I4 I5]]]]]].
-  {     destruct sk as [|c0 sk0] eqn:Esk.
+  { destruct hs eqn:Ehs.
+    - (* resuming after the start key *)
+      pose proof (split_after_app fwd sk ks) as A.
+      pose proof (split_after_pre fwd sk ks) as Hpre.
+      pose proof (split_after_rest fwd sk ks ks_sorted) as Hrest.
+      destruct (split_after fwd sk ks) as [pre rest] eqn:S; cbn [fst snd] in *.
+      rewrite <- A. rewrite (loop_pre L esk sk pre rest s0) by auto.
+      assert (rest_of true sk = rest) as Er by (unfold rest_of; now rewrite S).
+      match goal with |- context [search_loop _ _ _ _ _ _ _ _ ?s1] =>
+        destruct (loop_rest L esk sk rest s1 HL) as [s' [R P]] end; cbn; auto; try lia.
+      { rewrite <- Er. apply rest_of_in. }
+      exists s'. split; [exact R|]. rewrite Er in PK.
+      unfold s0 in P. cbn [s_count s_items s_scanned s_last] in P. rewrite PK in P. destruct P as [P1 [P2 [P3 [P4 P5]]]]. cbn [app] in *.
+      repeat split; auto.
+      pose proof (page_keys_app L 0 rest) as A2. rewrite PK in A2. cbn in A2. rewrite app_length, <- A2, app_length. lia.
     - (* from the beginning *)
-      destruct (loop_rest L esk [] ks s0 HL) as [s' [R P]]; cbn; auto; try lia.
+      destruct (loop_rest L esk sk ks s0 HL) as [s' [R P]]; cbn; auto; try lia.
       { apply Forall_forall. auto. }
       exists s'. split; [exact R|]. unfold rest_of in PK. cbn [s_count s0] in P. rewrite PK in P.
       destruct P as [P1 [P2 [P3 [P4 P5]]]]. cbn [s_items s_scanned s_last s0 app] in *.
       repeat split; auto.
-      pose proof (page_keys_app L 0 ks) as A. rewrite PK in A. cbn in A. rewrite <- A, app_length. lia.
-    - (* resuming after the start key *)
-      pose proof (split_after_app fwd (c0 :: sk0) ks) as A.
-      pose proof (split_after_pre fwd (c0 :: sk0) ks) as Hpre.
-      pose proof (split_after_rest fwd (c0 :: sk0) ks ks_sorted) as Hrest.
-      destruct (split_after fwd (c0 :: sk0) ks) as [pre rest] eqn:S; cbn [fst snd] in *.
-      rewrite <- A. rewrite (loop_pre L esk (c0 :: sk0) pre rest s0) by (auto; discriminate).
-      match goal with |- context [search_loop _ _ _ _ _ _ _ ?s1] =>
-        destruct (loop_rest L esk (c0 :: sk0) rest s1 HL) as [s' [R P]] end; cbn; auto; try lia.
-      { assert (rest_of (c0 :: sk0) = rest) as <- by (unfold rest_of; now rewrite S). apply rest_of_in. }
-      { right. split; [discriminate|exact Hrest]. }
-      exists s'. split; [exact R|].
-      assert (rest_of (c0 :: sk0) = rest) as Er by (unfold rest_of; now rewrite S). rewrite Er in PK.
-      unfold s0 in P. cbn [s_count s_items s_scanned s_last] in P. rewrite PK in P. destruct P as [P1 [P2 [P3 [P4 P5]]]]. cbn [app] in *.
-      repeat split; auto.
-      pose proof (page_keys_app L 0 rest) as A2. rewrite PK in A2. cbn in A2. rewrite app_length, <- A2, app_length. lia. }
+      pose proof (page_keys_app L 0 ks) as A. rewrite PK in A. cbn in A. rewrite <- A, app_length. lia. }
   rewrite R. cbn [obind]. exists (s_fired s'). rewrite I1. f_equal. f_equal. f_equal.
   rewrite I5. destruct p as [|p0 p'].
   - destruct b; auto. exfalso.
     (* a full page is not empty *)
-    destruct (rest_of sk) as [|k0 r0]; cbn in PK; [inversion PK|].
+    destruct (rest_of hs sk) as [|k0 r0]; cbn in PK; [inversion PK|].
     destruct (Nat.eqb L _); [inversion PK|]. destruct (page_keys L _ r0) as [[p1 u1] b1]. inversion PK.
   - assert (In (last (p0 :: p') []) ks) as Hin.
-    { pose proof (rest_of_in sk) as F. rewrite Forall_forall in F. apply F.
-      pose proof (page_keys_app L 0 (rest_of sk)) as A. rewrite PK in A. cbn [fst snd] in A. rewrite <- A.
+    { pose proof (rest_of_in hs sk) as F. rewrite Forall_forall in F. apply F.
+      pose proof (page_keys_app L 0 (rest_of hs sk)) as A. rewrite PK in A. cbn [fst snd] in A. rewrite <- A.
       apply in_or_app. left.
       destruct (@exists_last _ (p0 :: p') ltac:(discriminate)) as [l' [a Ea]]. rewrite Ea. rewrite last_last. apply in_or_app. right. now left. }
     destruct (stored _ Hin) as [it [Lk Gk]]. rewrite Gk.
-    destruct (HK _ _ Lk) as [_ [_ [_ Hne]]].
+    destruct (HK _ _ Lk) as [_ [_ Hne]].
     destruct it as [|kv it']; [congruence|].
     destruct (Nat.eqb L 0) eqn:E0; [apply Nat.eqb_eq in E0; lia|].
     assert (Nat.leb (s_scanned s') (List.length (map (fun k : str => (k, Some k)) ks)) = true) as -> by (apply Nat.leb_le; now rewrite map_length).
@@ -313,4 +335,163 @@ Proof.
     + assert (Nat.leb L (s_count s') = false) as -> by (apply Nat.leb_gt; auto). reflexivity.
 Qed.
 
+(* ---------- stitching the pages ---------- *)
+Lemma page_keys_false L : forall rest cnt p u, page_keys L cnt rest = (p, u, false) -> u = [].
+Proof.
+  induction rest as [|k r IH]; intros cnt p u H; cbn in H; [now inversion H|].
+  destruct (Nat.eqb L _); [inversion H|]. destruct (page_keys L _ r) as [[p1 u1] b1] eqn:E. inversion H; subst.
+  eapply IH; eauto.
+Qed.
+
+Lemma rest_of_suffix hs sk : exists pre, ks = pre ++ rest_of hs sk.
+Proof.
+  unfold rest_of. destruct hs; [|now exists []].
+  exists (fst (split_after fwd sk ks)). symmetry. apply split_after_app.
+Qed.
+
+Lemma rest_of_member a x b : ks = a ++ x :: b -> rest_of true x = b.
+Proof.
+  intros E. unfold rest_of.
+  pose proof ks_sorted as S. rewrite E in *. now rewrite split_after_member.
+Qed.
+
+(* the LastEvaluatedKey of a page names the last key the page evaluated (which may be the empty string) *)
+Lemma stitch x : In x ks ->
+  key_item (t_ks t) (get_item t x) <> [] /\
+  esk_has (key_item (t_ks t) (get_item t x)) = true /\ esk_key (key_item (t_ks t) (get_item t x)) = x.
+Proof.
+  intros Hin. destruct (stored _ Hin) as [it [Lk Gk]]. rewrite Gk.
+  destruct (HK _ _ Lk) as [G [Hk _]]. repeat split; auto.
+  - unfold esk_has, has_start_key. destruct (key_item (t_ks t) it) eqn:E; [congruence|]. now rewrite G.
+  - unfold esk_key, parse_start_key. destruct (key_item (t_ks t) it) eqn:E; [congruence|]. now rewrite G.
+Qed.
+
+(* the client-side pagination loop: follow LastEvaluatedKey until a page comes without one *)
+Fixpoint pages (fuel L : nat) (esk : item) : option (list item) :=
+  match fuel with
+  | O => None
+  | S f => match search_data lang_match c t (with_page L esk) with
+           | Ok (items, lek, _) =>
+               match lek with [] => Some items | _ => option_map (app items) (pages f L lek) end
+           | _ => None
+           end
+  end.
+
+Lemma pages_from L : 0 < L -> forall n esk,
+  List.length (esk_rest esk) <= n ->
+  pages (S n) L esk = Some (map (get_item t) (filter matched (esk_rest esk))).
+Proof.
+  intros HL. induction n as [|n IH]; intros esk Hlen.
+  - destruct (esk_rest esk) as [|k0 r0] eqn:E; [|cbn in Hlen; lia].
+    pose proof (page_result L esk HL) as P. rewrite E in P. cbn [page_keys] in P.
+    destruct P as [f P]. cbn [pages]. rewrite P. reflexivity.
+  - pose proof (page_result L esk HL) as P.
+    set (rest := esk_rest esk) in *.
+    destruct (page_keys L 0 rest) as [[p u] b] eqn:PK. destruct P as [f P].
+    pose proof (page_keys_app L 0 rest) as A. rewrite PK in A. cbn [fst snd] in A.
+    change (pages (S (S n)) L esk) with
+      (match search_data lang_match c t (with_page L esk) with
+       | Ok (items, lek, _) => match lek with [] => Some items | _ => option_map (app items) (pages (S n) L lek) end
+       | _ => None end).
+    rewrite P. destruct b.
+    + (* a full page: the next one starts after its last key *)
+      destruct p as [|p0 p'].
+      { exfalso. destruct rest as [|k0 r0]; cbn in PK; [inversion PK|].
+        destruct (Nat.eqb L _); [inversion PK|]. destruct (page_keys L _ r0) as [[p1 u1] b1]. inversion PK. }
+      destruct (@exists_last _ (p0 :: p') ltac:(discriminate)) as [l' [x Ex]]. rewrite Ex in *. rewrite last_last.
+      destruct (rest_of_suffix (esk_has esk) (esk_key esk)) as [pre Hpre]. fold (esk_rest esk) in Hpre. fold rest in Hpre.
+      assert (ks = (pre ++ l') ++ x :: u) as Hks. { rewrite Hpre, <- A, <- !app_assoc. reflexivity. }
+      assert (In x ks) as Hin. { rewrite Hks. apply in_or_app. right. now left. }
+      destruct (stitch x Hin) as [Hne [Hh Hp]].
+      destruct (key_item (t_ks t) (get_item t x)) as [|kv kr] eqn:EK; [congruence|]. rewrite <- EK in *.
+      assert (esk_rest (key_item (t_ks t) (get_item t x)) = u) as Hu.
+      { unfold esk_rest. rewrite Hh, Hp. eapply rest_of_member; eauto. }
+      rewrite IH; rewrite Hu.
+      * cbn [option_map]. f_equal. rewrite <- A, !filter_app, !map_app. reflexivity.
+      * rewrite <- A, !app_length in Hlen. cbn [List.length] in Hlen. lia.
+    + (* a short page is the last: nothing is left *)
+      apply page_keys_false in PK as Hu. subst u. rewrite app_nil_r in A. now rewrite A.
+Qed.
+
+(* C04 for the base table: following LastEvaluatedKey with any Limit >= 1 terminates within |keys|+1 pages and
+   concatenates to the items the request selects, in the scan order *)
+Theorem paginate_complete L : 0 < L ->
+  pages (S (List.length (t_sorted t))) L [] = Some (map (get_item t) (filter matched ks)).
+Proof.
+  intros HL. pose proof (pages_from L HL (List.length (t_sorted t)) []) as P.
+  apply P. unfold esk_rest, esk_has, has_start_key, rest_of, ks. destruct fwd; [|rewrite rev_length]; lia.
+Qed.
+
+(* resuming from ANY start key - whether or not an item is (still) stored under it - returns every matching item
+   positioned after that key in the scan order: the item named by a LastEvaluatedKey may be deleted between pages *)
+Lemma esk_rest_spec esk : esk_rest esk = if esk_has esk then filter (aftb fwd (esk_key esk)) ks else ks.
+Proof. unfold esk_rest, rest_of. destruct (esk_has esk); auto. apply split_after_filter. apply ks_sorted. Qed.
+
+Theorem resume_complete L esk : 0 < L ->
+  pages (S (List.length (t_sorted t))) L esk =
+  Some (map (get_item t) (filter matched (if esk_has esk then filter (aftb fwd (esk_key esk)) ks else ks))).
+Proof.
+  intros HL. rewrite <- esk_rest_spec. apply pages_from; auto.
+  destruct (rest_of_suffix (esk_has esk) (esk_key esk)) as [pre Hpre]. fold (esk_rest esk) in Hpre.
+  assert (List.length ks = List.length (t_sorted t)) as <- by (unfold ks; destruct fwd; [|rewrite rev_length]; reflexivity).
+  rewrite Hpre, app_length. lia.
+Qed.
+
+(* the unpaginated read of the same request *)
+Lemma select_items_ev : forall l, Forall (fun k => In k ks) l ->
+  exists f, select_items lang_match c t q (map (get_item t) l) = Ok (map (get_item t) (filter matched l), f).
+Proof.
+  induction l as [|k l IH]; intros H; cbn; [eauto|]. inversion H as [|? ? Hk Hl]; subst.
+  rewrite (Hev k) by (now apply In_ks). destruct (IH Hl) as [f ->]. unfold matched at 2.
+  destruct (ev k) as [[e m] f0]; cbn. destruct m; eauto.
+Qed.
+
+Theorem unpaginated :
+  exists f, search_data lang_match c t (with_page 0 []) = Ok (map (get_item t) (filter matched ks), [], f).
+Proof.
+  rewrite (search_unlimited_base lang_match c t (with_page 0 []) HT Hbase (conj eq_refl eq_refl)).
+  change (q_forward (with_page 0 [])) with fwd. fold ks.
+  unfold with_page at 1. rewrite functional_select.
+  destruct (select_items_ev ks) as [f ->]; [apply Forall_forall; auto|]. cbn. eauto.
+Qed.
+
+(* C04, base table: the pages concatenate to exactly the unpaginated result *)
+Theorem paginate_equals_unpaginated L : 0 < L ->
+  exists items f, search_data lang_match c t (with_page 0 []) = Ok (items, [], f) /\
+                  pages (S (List.length (t_sorted t))) L [] = Some items.
+Proof.
+  intros HL. destruct unpaginated as [f U]. exists (map (get_item t) (filter matched ks)), f. split; auto.
+  now apply paginate_complete.
+Qed.
+
 End Page.
+
+(* the same with the premise on keys discharged by the key-consistency invariant (KeyInv.v), which holds in every
+   reachable state of histories whose updates do not change key attributes *)
+Theorem pagination_complete_base lm c t q ev :
+  q_index q = None -> q_cond q = None -> secondary (t_ks t) = false ->
+  TInv t -> KInv t ->
+  (forall k, In k (t_sorted t) -> match_key lm c t q (get_item t k) = Ok (ev k)) ->
+  forall L, 0 < L ->
+  exists items f, search_data lm c t (with_page q 0 []) = Ok (items, [], f) /\
+                  pages lm c t q (S (List.length (t_sorted t))) L [] = Some items.
+Proof.
+  intros Hb Hc Hs HT HKi Hev L HL.
+  apply (paginate_equals_unpaginated lm c t q ev Hb Hc HT Hev (KInv_page_premise t Hs HKi) L HL).
+Qed.
+
+Theorem resume_complete_base lm c t q ev :
+  q_index q = None -> q_cond q = None -> secondary (t_ks t) = false ->
+  TInv t -> KInv t ->
+  (forall k, In k (t_sorted t) -> match_key lm c t q (get_item t k) = Ok (ev k)) ->
+  forall L esk, 0 < L ->
+  pages lm c t q (S (List.length (t_sorted t))) L esk =
+  Some (map (get_item t)
+         (filter (matched ev)
+            (if has_start_key (t_ks t) (t_defs t) esk
+             then filter (aftb (q_forward q) (parse_start_key (t_ks t) (t_defs t) esk)) (ks t q)
+             else ks t q))).
+Proof.
+  intros Hb Hc Hs HT HKi Hev L esk HL.
+  apply (resume_complete lm c t q ev Hb Hc HT Hev (KInv_page_premise t Hs HKi) L esk HL).
+Qed.
